@@ -271,6 +271,7 @@ pub fn run(ctx: &mut Ctx) {
         "power: conducted power <= MAX_RADIO_POWER, <= regional MaxEIRP - antenna gain, <= EIRP of the last acknowledged TXPower index".into(),
     ];
     let seed = ctx.seed;
+    let thorough = ctx.tier == Tier::Thorough;
     let cases = ctx.tier.pick(15_000u32, 400_000);
     let nthreads = ctx.threads as u32;
     ctx.parallel(|ti, _n, st| {
@@ -304,6 +305,24 @@ pub fn run(ctx: &mut Ctx) {
                         if let Err(f) = run_one(&h, st, "single-channel-mask") {
                             st.fail(f);
                         }
+                    }
+                }
+            }
+        }
+    });
+    // dynamic plans: a re-join whose CFList removes channels that the surviving mask still names
+    ctx.parallel(|ti, n, st| {
+        let mut j = 0usize;
+        for region in REGIONS.iter().filter(|r| !r.fixed()) {
+            for front in [FrontKind::Async, FrontKind::Nb] {
+                for k in 0..31 * 32 {
+                    j += 1;
+                    if j % n != ti || (!thorough && k % 4 != 1) {
+                        continue;
+                    }
+                    let h = gen::rejoin_cflist_history(*region, front, seed, k);
+                    if let Err(f) = run_one(&h, st, "rejoin-cflist-removes-channels") {
+                        st.fail(f);
                     }
                 }
             }
